@@ -44,6 +44,11 @@ CLAIMED = {
    note='Trusted: Coq kernel; hand-written Model/AsPath.v tied by a differential run (run lengths around/over 255 and 510 - all 0..=600 in the thorough tier -, all segment types, both widths, prepend counts to 600, truncated/invalid wire paths, recorded hash inputs).',
    technique='Coq proof: induction over hops with a run-splitting lemma (len mod 255 + chunks of 255), refinement to a segment list; differential correspondence',
    design='5/C13'),
+ 'C03': dict(
+   text='Machine-checked proof (Coq 8.16): for every byte string OPEN / NOTIFICATION / KEEPALIVE / ROUTE-REFRESH decoding and the Message dispatch return a message or an error, never a panic; an accepted OPEN is exactly an encoding of fixed fields plus optional parameters (capability groups whose every capability satisfies the generated per-type content rule, or opaque non-capability parameters) whose header length equals the octets supplied, and every accessor reports the encoded fields, parameters and capabilities (my_asn: the four-octet capability first), so no accessor or iterator of an accepted message panics; accepted KEEPALIVE is exactly 19 octets, NOTIFICATION at least 21 with matching length; NotificationBuilder / KeepaliveBuilder output and ROUTE-REFRESH encodings decode back to their fields; OpenBuilder::finish, when it returns, wrote the fields and one capabilities parameter in order (at most 253 octets).',
+   note='Trusted: Coq kernel; hand-written Model/OpenMsg.v; capability content rules generated from Capability::parse (arms recognised by hash), mirrored bodies pinned; tied by a differential run over every capability code x length 0..=20, structured OPENs from a Python reference encoder, mutated / truncated / random octets, NOTIFICATIONs of totals 18..22, builder scripts around 253 octets decoded back in a second stage. Three defects fixed in /repo (F7, F8, F9); K3 (OpenBuilder u8 overflow) recorded.',
+   technique='Coq proof: no-panic lemmas per decoder, inversion of the check into an encoding of ok parameters, forward framing lemmas, accessors computed on the canonical form; differential correspondence',
+   design='5/C03'),
  'C04': dict(
    text='Machine-checked proof (Coq 8.16) over the attribute table generated from the source (type code, canonical flags, validate rule, value_len rule per type): every well-formed typed value of the 20 kinds encodes to header ++ value that decodes (4-octet ASNs) and converts back to the same value consuming exactly the encoding; reported length = octets produced; flags canonical with extended-length exactly above 255 octets; for every value of any length that violates the type rule the attribute is surfaced as Invalid with canonical flags and its raw value; unknown codes keep flags, code and value. List sizes, path lengths and value lengths are unbounded (up to the 16-bit length field).',
    note='Trusted: Coq kernel (+ vm_compute to look up the generated table); translator tools/gen_attrs.py and its pinned hashes; hand-written compose_value/parse bodies in Model/Attr.v tied by a differential run (all 20 kinds at sizes straddling 255/256 octets and 255 ASNs; every value length 0..=300 x every typed code x both widths x length encodings; unknown codes; random octets) with an independent RFC length table as oracle.',
